@@ -5,7 +5,9 @@ import (
 	"errors"
 	"fmt"
 	"io"
+	"io/fs"
 	"reflect"
+	"syscall"
 	"testing"
 
 	"github.com/philpearl/avro"
@@ -340,6 +342,16 @@ func init() {
 
 var errWriteSentinel = errors.New("injected write failure")
 
+// writerErrors: what a real destination returns. A plain error value, an *fs.PathError
+// around an errno (what *os.File gives), and an error that itself wraps another:
+// the caller must be able to find exactly this value (errors.Is) in what the
+// library returns, and through it whatever the value wraps.
+var writerErrors = []error{
+	errWriteSentinel,
+	&fs.PathError{Op: "write", Path: "/data/out.avro", Err: syscall.ENOSPC},
+	fmt.Errorf("upload part 7: %w", errWriteSentinel),
+}
+
 // faultWriter accepts everything until its k-th Write, of which it accepts j
 // permille and returns errWriteSentinel; later writes fail too.
 type faultWriter struct {
@@ -353,6 +365,14 @@ type faultWriter struct {
 	// drops the error would carry on writing.
 	sticky bool
 	lens   []int
+	err    error // the error returned by failing writes (default errWriteSentinel)
+}
+
+func (f *faultWriter) failure() error {
+	if f.err != nil {
+		return f.err
+	}
+	return errWriteSentinel
 }
 
 func (f *faultWriter) Write(p []byte) (int, error) {
@@ -360,13 +380,13 @@ func (f *faultWriter) Write(p []byte) (int, error) {
 	f.writes++
 	f.lens = append(f.lens, len(p))
 	if f.fired && f.sticky {
-		return 0, errWriteSentinel
+		return 0, f.failure()
 	}
 	if f.failAt >= 0 && k == f.failAt {
 		f.fired = true
 		n := len(p) * f.permil / 1000
 		f.buf.Write(p[:n])
-		return n, errWriteSentinel
+		return n, f.failure()
 	}
 	return f.buf.Write(p)
 }
@@ -474,7 +494,7 @@ func runC16(c histCase, col *stats.Collector) (bool, []string, error) {
 		if len(c.J) > 0 {
 			permil = c.J[k%len(c.J)]
 		}
-		fw := &faultWriter{failAt: k, permil: permil, sticky: (k+len(c.Ops)+len(c.Payloads))%2 == 0}
+		fw := &faultWriter{failAt: k, permil: permil, sticky: (k+len(c.Ops)+len(c.Payloads))%2 == 0, err: writerErrors[(k/2+len(c.Ops))%len(writerErrors)]}
 		calls, writesAfter, perr := runHistory(c, dest(fw), fw)
 		fail := func(format string, args ...interface{}) (bool, []string, error) {
 			return true, labels, fmt.Errorf("fault at write %d of %d (accepting %d permille): %s", k, W, permil, fmt.Sprintf(format, args...))
@@ -508,8 +528,12 @@ func runC16(c histCase, col *stats.Collector) (bool, []string, error) {
 		if cerr == nil {
 			return fail("%s issued the failing write but returned nil", calls[culprit].name)
 		}
-		if !errors.Is(cerr, errWriteSentinel) {
-			return fail("%s returned %q which does not wrap the writer's error", calls[culprit].name, cerr)
+		if !errors.Is(cerr, fw.failure()) {
+			return fail("%s returned %q which does not wrap the writer's error %q (%T)", calls[culprit].name, cerr, fw.failure(), fw.failure())
+		}
+		var pe *fs.PathError
+		if errors.As(fw.failure(), &pe) && (!errors.As(cerr, &pe) || !errors.Is(cerr, syscall.ENOSPC)) {
+			return fail("%s returned %q: the writer's *fs.PathError / ENOSPC cannot be found in it", calls[culprit].name, cerr)
 		}
 		// prefix check with the sync marker substituted
 		got := fw.buf.Bytes()
